@@ -38,7 +38,7 @@ PNone == <<"none", "", 0, 0>>
 POr(k) == <<"or", "", k, 0>>            \* alts[k] = <<alternative 1, alternative 2>> (pattern values)
 \* pattern node: op, ins, attr pattern on attribute "a" (<<"any">>|<<"c",v>>|<<"v">>), allow_other_inputs, allow_other_attributes
 PN(op, ins, at, aoi, aoa) == [op |-> op, ins |-> ins, at |-> at, aoi |-> aoi, aoa |-> aoa]
-GN(op, ins, a) == [op |-> op, ins |-> ins, a |-> a]        \* a: 0 = attribute absent, else its value
+GN(op, ins, a) == [op |-> op, ins |-> ins, a |-> a, b |-> 0]   \* a, b: two attributes; 0 = absent, else the value (patterns only mention "a")
 
 -----------------------------------------------------------------------------
 (* DECLARATIVE meaning *)
@@ -49,9 +49,11 @@ NeedV(pv, ch) == CASE pv[1] = "out" -> NeedN(pv[3], ch)
                    [] OTHER -> {}
 NeedN(p, ch) == {p} \cup UNION {NeedV(pat[p].ins[i], ch) : i \in 1..Len(pat[p].ins)}
 
+\* attribute pattern on "a": any (not mentioned) | c (constant) | v (attribute variable) | vo (variable that may match an absent attribute)
 AttrOK(pn, g) == /\ (pn.at[1] = "c" => g.a = pn.at[2])
                  /\ (pn.at[1] = "v" => g.a # 0)
                  /\ (~pn.aoa /\ pn.at[1] = "any" => g.a = 0)
+                 /\ (~pn.aoa => g.b = 0)                     \* "b" is never mentioned by a pattern
 InputAt(g, i) == IF i <= Len(g.ins) THEN g.ins[i] ELSE NONEV
 \* The correspondences an instance rooted at `root` is FORCED to have under a choice ch of alternatives:
 \* <<"node","",p,k>> pattern node p is graph node k;  <<"var",name,v,0>> variable name is value v;
@@ -182,7 +184,7 @@ LeafVals == {PVar("x"), PVar("y"), PConst(1)}
 PrevOuts == UNION {{POut(p, j) : j \in 0..(NOuts(pat[p].op) - 1)} : p \in 1..Len(pat)}
 OrVals == {POr(k) : k \in 1..Len(alts)}
 InVals == LeafVals \cup PrevOuts \cup OrVals
-AttrPats == IF "attr" \in Features THEN {<<"any", 0>>, <<"c", 1>>, <<"v", 0>>} ELSE {<<"any", 0>>}
+AttrPats == IF "attr" \in Features THEN {<<"any", 0>>, <<"c", 1>>, <<"v", 0>>, <<"vo", 0>>} ELSE {<<"any", 0>>}
 Flags == IF "flags" \in Features THEN {<<FALSE, TRUE>>, <<TRUE, TRUE>>, <<FALSE, FALSE>>} ELSE {<<FALSE, TRUE>>}
 
 Init == /\ pat = <<>> /\ alts = <<>> /\ graph = <<>> /\ gouts = {} /\ root = 0 /\ stage = "pattern"
@@ -231,6 +233,8 @@ Mutate ==
           /\ graph' = [graph EXCEPT ![k] = ReplaceIn(@, i, v)] /\ mut' = "rewire" /\ UNCHANGED <<gouts, root>>
      \/ \E k \in 1..Len(graph), a \in {0, 1, 2} :
           /\ a # graph[k].a /\ graph' = [graph EXCEPT ![k].a = a] /\ mut' = "attr" /\ UNCHANGED <<gouts, root>>
+     \/ \E k \in 1..Len(graph), a \in {0, 1, 2} :              \* an attribute no pattern mentions, with any value of "a"
+          /\ graph' = [graph EXCEPT ![k] = [@ EXCEPT !.a = a, !.b = 1]] /\ mut' = "attr_b" /\ UNCHANGED <<gouts, root>>
      \/ \E k \in 1..Len(graph), j \in 0..1 :                     \* an extra consumer of a matched node's output
           /\ j < NOuts(graph[k].op) /\ (k < Len(graph) \/ j = 1)   \* (not of the pattern output itself)
           /\ graph' = Append(graph, GN("U", <<OutV(k, j)>>, 0)) /\ mut' = "consumer" /\ UNCHANGED <<gouts, root>>
